@@ -89,9 +89,15 @@ class Sys(e2.DevSys):
             acts.append(("stop", -1))  # stop() of the discovery part: nothing is sent any more
         if sum(1 for e in self.events if e[2] == "restart") < 2 and not any(e[2] == "stop" for e in self.events):
             acts.append(("restart", -1))  # stop() and start() of the discovery part: the schedule begins again
+        if not any(e[2] == "connlost" for e in self.events):
+            acts.append(("connlost", -1))  # the connection is reported lost: what was learnt is forgotten, the schedule goes on
         return acts
 
     def do(self, act):
+        if act[0] == "connlost":
+            self.events.append((self.loop.time(), self.cur[1], "connlost", -1, 0))
+            self.prot.discovery.connection_lost(None)
+            return
         if act[0] == "stop":
             now = self.loop.time()
             self.events.append((now, self.cur[1], "stop", -1, 0))
@@ -151,6 +157,9 @@ class Sys(e2.DevSys):
             if not before:
                 continue
             if kind in ("restart", "stop"):
+                continue
+            if kind == "connlost":
+                live.clear()
                 continue
             if kind == "watch":
                 watched.append(filters(self.s, self.s2)[i])
@@ -246,7 +255,7 @@ def reoffer_triple(cfg, devs, p, k):
             and p[0] - devs[0][0] < 1.0 and devs[0][1] == devs[1][1] == p[1] == "pre")
 
 
-K1_ONLY = ("offer+stop", "stop+offer", "restart", "stop")
+K1_ONLY = ("offer+stop", "stop+offer", "restart", "stop", "connlost")
 
 
 def restrict(thorough, cfg, devs, p, k):
@@ -258,6 +267,9 @@ def restrict(thorough, cfg, devs, p, k):
     if k == 2 and devs[0][2][0] == "offer" and p[2][0] == "restart" and len(cfg["watched"]) <= 2 \
             and cfg["reps"] in (1, 3) and cfg["frac"] == 0.0 and (thorough or p[1] == "pre"):
         return True  # an offer, then a restart: what was learnt before the stop is still known afterwards
+    if k == 2 and devs[0][2][0] == "connlost" and p[2][0] == "offer" and len(cfg["watched"]) <= 2 \
+            and cfg["reps"] in (1, 3) and cfg["frac"] == 0.0 and (thorough or p[1] == "pre"):
+        return True  # the connection is lost in the middle of a phase, then an offer: it is found by the rounds that follow
     if not thorough and (p[2][0] in K1_ONLY or any(d[2][0] in K1_ONLY for d in devs)):
         return False  # quick tier: two-entry messages and restarts as single disturbances only
     if reoffer_triple(cfg, devs, p, k):
